@@ -234,6 +234,16 @@ LEN_EDGES = [2, 3, 4, 255, 256, 257, 511, 512, 1022, 1023]
 @st.composite
 def unknown_payloads(draw, size="mixed"):
     """payload of an undefined message type, 2..1023 bytes (3.. for the 4076 family)"""
+    if 3376 in unknown_numbers() and size != "big" and draw(st.integers(0, 9)) == 0:
+        # message number 3376 = 0xD30: a payload that is itself shaped like a transport frame (preamble, zero reserved
+        # bits, matching length), with a right CRC (an encapsulated frame) or arbitrary last bytes
+        from pv import framing
+
+        inner = draw(st.one_of(st.binary(min_size=0, max_size=40), any_message("small").map(lambda c: bytes.fromhex(c["payload"])[:1017])))
+        f = framing.build_frame(inner)
+        if draw(st.booleans()):
+            f = f[:-3] + draw(st.binary(min_size=3, max_size=3))
+        return f
     if draw(st.integers(0, 7)) == 0:
         sub = draw(st.sampled_from(unknown_subtypes()))
         ver = draw(st.integers(0, 7))
